@@ -51,8 +51,11 @@ func nsCtx(ns string) context.Context {
 
 // Step is one API request against the object. Submitted is the request body (a JSON document).
 type Step struct {
-	Op        string          `json:"op"` // create | main | status
+	Op        string          `json:"op"` // create | main | status | delete (DELETE of the main resource; Submitted only names the object)
 	Submitted json.RawMessage `json:"submitted"`
+	// RV: what the body says in metadata.resourceVersion on an update of an existing object: "" = nothing
+	// (unconditional update), "current" = the stored object's, "stale" = an old one (must be refused: Conflict).
+	RV string `json:"rv,omitempty"`
 	// MetaValid: whether the metadata is acceptable to the ObjectMeta validation apart from its two generation
 	// rules — known by construction (the generator says what it broke), an oracle parameter of the model.
 	MetaValid bool `json:"metaValid"`
@@ -364,6 +367,56 @@ func (h *H) eval(cs Case) *rig.Failure {
 			oldDeep, oldAPI = deepGroups(old), apiGroups(old)
 			t.Old = &oldAPI
 		}
+		if st.Op == "delete" {
+			if f := h.evalDelete(cs, trace, s, i, st, fl, zeroDeep, ctx, key, name, old, oldDeep); f != nil {
+				return f
+			}
+			continue
+		}
+		if old == nil && st.Op != "create" {
+			// an update that names (by uid) an object that does not exist is refused by the store's precondition,
+			// it is not turned into a creation
+			if pre, _ := s.decode(st.Submitted); pre != nil {
+				if pa, _ := meta.Accessor(pre); pa != nil && pa.GetUID() != "" && !(st.Op == "status" && !served) {
+					upd := rest.Storage(s.MainREST)
+					if st.Op == "status" {
+						upd = s.StatusREST()
+					}
+					var err2 error
+					rig.Recover(func() {
+						_, _, err2 = upd.(rest.Updater).Update(ctx, name, rest.DefaultUpdatedObjectInfo(pre), rest.ValidateAllObjectFunc, rest.ValidateAllObjectUpdateFunc, false, &metav1.UpdateOptions{})
+					})
+					if _, now := s.Mem.Raw(key); err2 == nil || now {
+						return fail("diff", "c20.uid-precondition", fmt.Sprintf("step %d: an update carrying a uid for a missing object: error=%q, object stored now=%v", i, errClass(err2), now), nil)
+					}
+					h.obs["step:"+st.Op+":uid-of-missing-object-refused"]++
+					continue
+				}
+			}
+		}
+		if st.RV == "stale" && old != nil && st.Op != "create" {
+			// optimistic concurrency: a body carrying an old resourceVersion is refused and nothing changes
+			obj, err := s.decode(st.Submitted)
+			if err != nil {
+				return fail("diff", "c20.bad-case", "submitted document does not decode: "+err.Error(), nil)
+			}
+			na, _ := meta.Accessor(obj)
+			na.SetResourceVersion("1")
+			upd := rest.Storage(s.MainREST)
+			if st.Op == "status" && served {
+				upd = s.StatusREST()
+			}
+			var err2 error
+			rig.Recover(func() {
+				_, _, err2 = upd.(rest.Updater).Update(ctx, name, rest.DefaultUpdatedObjectInfo(obj), rest.ValidateAllObjectFunc, rest.ValidateAllObjectUpdateFunc, false, &metav1.UpdateOptions{})
+			})
+			back := s.Main.NewFunc()
+			if gerr := s.Mem.Get(ctx, key, "", back, false); err2 == nil || gerr != nil || deepGroups(back) != oldDeep {
+				return fail("diff", "c20.stale-resource-version", fmt.Sprintf("step %d: an update carrying a stale resourceVersion: error=%q, stored object changed=%v", i, errClass(err2), gerr != nil || deepGroups(back) != oldDeep), nil)
+			}
+			h.obs["step:"+st.Op+":stale-resourceVersion-refused"]++
+			continue
+		}
 		endpoint := s.Main
 		var endpointREST rest.Storage = s.MainREST
 		if st.Op == "status" {
@@ -432,6 +485,12 @@ func (h *H) eval(cs Case) *rig.Failure {
 		var err2 error
 		created := false
 		obj2, _ := s.decode(st.Submitted)
+		if st.RV == "current" && old != nil && st.Op != "create" {
+			oa, _ := meta.Accessor(old)
+			na, _ := meta.Accessor(obj2)
+			na.SetResourceVersion(oa.GetResourceVersion())
+			h.obs["step:"+st.Op+":with-current-resourceVersion"]++
+		}
 		msg, panicked = rig.Recover(func() {
 			if st.Op == "create" {
 				out2, err2 = endpointREST.(rest.Creater).Create(ctx, obj2, rest.ValidateAllObjectFunc, &metav1.CreateOptions{})
@@ -488,6 +547,9 @@ func (h *H) eval(cs Case) *rig.Failure {
 			h.obs["step:"+st.Op+":created"]++
 		} else {
 			h.obs["step:"+st.Op+":accepted"]++
+			if oa, _ := meta.Accessor(old); oa != nil && oa.GetDeletionTimestamp() != nil {
+				h.obs["step:"+st.Op+":accepted-on-terminating-object"]++
+			}
 		}
 		if created != m.Created {
 			return fail("diff", "c20.created", fmt.Sprintf("step %d (%s on %s): store created=%v, model created=%v", i, st.Op, s.Name, created, m.Created), nil)
@@ -495,7 +557,17 @@ func (h *H) eval(cs Case) *rig.Failure {
 		if out2API != out1API {
 			return fail("diff", "c20.store-output", fmt.Sprintf("step %d (%s on %s): the store answered %+v but the object after BeforeCreate/BeforeUpdate renders as %+v", i, st.Op, s.Name, out2API, out1API), nil)
 		}
-		// what a later read shows must be what was answered
+		// what a later read shows must be what was answered — unless the update emptied the finalizers of a
+		// terminating object, which removes it (the answer is then the object as updated)
+		if _, still := s.Mem.Raw(key); !still && old != nil {
+			oa, _ := meta.Accessor(old)
+			na, _ := meta.Accessor(out2)
+			if oa.GetDeletionTimestamp() == nil || len(na.GetFinalizers()) != 0 {
+				return fail("diff", "c20.read-back", fmt.Sprintf("step %d: the object is gone after an accepted update although it was not terminating or still has finalizers", i), nil)
+			}
+			h.obs["step:"+st.Op+":removed-by-update(finalizers emptied while terminating)"]++
+			continue
+		}
 		back := s.Main.NewFunc()
 		if err := s.Mem.Get(ctx, key, "", back, false); err != nil || apiGroups(back) != out2API {
 			return fail("diff", "c20.read-back", fmt.Sprintf("step %d: read-back differs from the answer (%v)", i, err), nil)
@@ -510,6 +582,67 @@ func (h *H) modelArgs(st Step, fl regFlags, zeroDeep string, old runtime.Object,
 		a["stored"] = oldDeep.hex()
 	}
 	return a
+}
+
+// evalDelete: DELETE of the main resource. Not judged (the property speaks about creation and updates); the
+// outcome is compared with the model's apiDelete: an object with pending finalizers (or a pending graceful
+// deletion) stays, everything but the rest of the metadata and the generation untouched, and k8s' markAsDeleting
+// bumps the generation of an object that was not terminating yet (if > 0).
+func (h *H) evalDelete(cs Case, trace []stepTrace, s *Served, i int, st Step, fl regFlags, zeroDeep string, ctx context.Context, key, name string, old runtime.Object, oldDeep Groups) *rig.Failure {
+	c := h.c
+	fail := func(kind, class, what string, model interface{}) *rig.Failure {
+		return &rig.Failure{Kind: kind, Class: class, What: what, Case: cs, Impl: trace, Model: model}
+	}
+	var err error
+	msg, panicked := rig.Recover(func() {
+		_, _, err = s.MainREST.(rest.GracefulDeleter).Delete(ctx, name, rest.ValidateAllObjectFunc, &metav1.DeleteOptions{})
+	})
+	if panicked {
+		return fail("judge", "c20.panic", fmt.Sprintf("step %d: Delete panicked: %s", i, msg), nil)
+	}
+	trace[len(trace)-1].Err2 = errClass(err)
+	if old == nil {
+		if err == nil {
+			return fail("diff", "c20.delete", fmt.Sprintf("step %d: DELETE of a missing object succeeded", i), nil)
+		}
+		h.obs["step:delete:not-found"]++
+		return nil
+	}
+	oa, _ := meta.Accessor(old)
+	// the strategies are not RESTGracefulDeleteStrategy: a grace period never keeps the object, finalizers do
+	keeps := len(oa.GetFinalizers()) > 0
+	bumps := oa.GetDeletionTimestamp() == nil
+	args := h.modelArgs(st, fl, zeroDeep, old, oldDeep, oldDeep)
+	args["deleteKeeps"], args["deleteBumps"] = keeps, bumps
+	var m struct {
+		Rej string
+		Out *Groups
+	}
+	if merr := c.Model("C20.op", args, &m); merr != nil {
+		return fail("diff", "c20.model-error", merr.Error(), nil)
+	}
+	_, still := s.Mem.Raw(key)
+	if err != nil || still != (m.Out != nil) {
+		return fail("diff", "c20.delete", fmt.Sprintf("step %d: DELETE error=%q, object still stored=%v, model keeps it=%v (finalizers %v, terminating %v)", i, errClass(err), still, m.Out != nil, oa.GetFinalizers(), !bumps), m)
+	}
+	if !still {
+		h.obs["step:delete:removed"]++
+		return nil
+	}
+	back := s.Main.NewFunc()
+	if gerr := s.Mem.Get(ctx, key, "", back, false); gerr != nil || deepGroups(back) != m.Out.unhex() {
+		return fail("diff", "c20.delete", fmt.Sprintf("step %d: after DELETE the kept object is %+v, the model's is %+v", i, deepGroups(back), m.Out.unhex()), m)
+	}
+	ba, _ := meta.Accessor(back)
+	if ba.GetDeletionTimestamp() == nil {
+		return fail("diff", "c20.delete", fmt.Sprintf("step %d: the object kept by DELETE has no deletionTimestamp", i), nil)
+	}
+	if bumps {
+		h.obs["step:delete:kept-now-terminating"]++
+	} else {
+		h.obs["step:delete:kept-was-terminating"]++
+	}
+	return nil
 }
 
 // judge evaluates the property's clauses (KG.Spec.Strategy, through the driver) on one accepted request as the
@@ -619,10 +752,54 @@ func (h *H) genStored(s *Served) []byte {
 	acc.SetGeneration(rig.Pick(r, genPool))
 	acc.SetUID(types.UID("uid-" + acc.GetName()))
 	acc.SetCreationTimestamp(metav1.Unix(1700000000, 0))
-	if r.Intn(6) == 0 {
+	// the rest of the metadata: finalizers, a terminating object (DELETE was requested, finalizers or a grace period
+	// keep it — it is still updatable), owner references, managed fields
+	switch r.Intn(6) {
+	case 0, 1:
 		acc.SetFinalizers([]string{"example.com/hold"})
+	case 2:
+		acc.SetFinalizers([]string{"example.com/hold", "example.com/other"})
+	}
+	if r.Intn(5) == 0 {
+		ts := metav1.Unix(1700005000, 0)
+		acc.SetDeletionTimestamp(&ts)
+		g := int64(0)
+		if r.Intn(4) == 0 {
+			g = 30
+		}
+		acc.SetDeletionGracePeriodSeconds(&g)
+		if len(acc.GetFinalizers()) == 0 && r.Intn(4) != 0 {
+			acc.SetFinalizers([]string{"example.com/hold"})
+		}
+	}
+	if r.Intn(5) == 0 {
+		acc.SetOwnerReferences(genOwners(r))
+	}
+	if r.Intn(7) == 0 {
+		acc.SetManagedFields(genManaged(r))
 	}
 	return h.normalise(s, obj)
+}
+
+func genOwners(r interface{ Intn(int) int }) []metav1.OwnerReference {
+	o := []metav1.OwnerReference{{APIVersion: "v1", Kind: "ConfigMap", Name: "owner-a", UID: "uid-owner-a"}}
+	if r.Intn(2) == 0 {
+		t := true
+		o = append(o, metav1.OwnerReference{APIVersion: "apps/v1", Kind: "Deployment", Name: "owner-b", UID: "uid-owner-b", Controller: &t})
+	}
+	return o
+}
+
+func genManaged(r interface{ Intn(int) int }) []metav1.ManagedFieldsEntry {
+	return []metav1.ManagedFieldsEntry{{Manager: []string{"kubectl", "controller"}[r.Intn(2)], Operation: metav1.ManagedFieldsOperationUpdate,
+		APIVersion: "v1", FieldsType: "FieldsV1", FieldsV1: &metav1.FieldsV1{Raw: []byte("{}")}}}
+}
+
+// subOpts: what the generator knows about the server-side state when it derives a request body.
+type subOpts struct {
+	noNewFinalizers bool // the object is (or may be) terminating: finalizers may only be removed
+	stripDeletion   bool // do not echo deletionTimestamp / deletionGracePeriodSeconds (the server's may differ by now)
+	stripUID        bool // the object may have been re-created since: its uid is not the one in the document
 }
 
 func (h *H) normalise(s *Served, obj runtime.Object) []byte {
@@ -646,7 +823,7 @@ const (
 )
 
 // genSubmitted derives a request body from the stored document: any subset of field groups is changed.
-func (h *H) genSubmitted(s *Served, stored []byte, mask int) []byte {
+func (h *H) genSubmitted(s *Served, stored []byte, mask int, o subOpts) []byte {
 	r := h.c.Rng
 	obj, err := s.decode(stored)
 	if err != nil {
@@ -678,17 +855,62 @@ func (h *H) genSubmitted(s *Served, stored []byte, mask int) []byte {
 	if mask&dGeneration != 0 {
 		acc.SetGeneration(rig.Pick(r, []int64{0, 1, 3, 99, -4, math.MaxInt64}))
 	}
+	if acc.GetDeletionTimestamp() != nil {
+		o.noNewFinalizers = true
+	}
 	if mask&dOther != 0 {
-		switch r.Intn(4) {
-		case 0:
-			acc.SetUID("") // a client that does not send the uid
-		case 1:
-			acc.SetCreationTimestamp(metav1.Time{})
-		case 2:
-			acc.SetFinalizers([]string{"example.com/hold", "example.com/other"})
-		case 3:
-			acc.SetClusterName("somewhere")
+		for n := 1 + r.Intn(2); n > 0; n-- {
+			e := r.Intn(8)
+			switch e {
+			case 0:
+				acc.SetUID("") // a client that does not send the uid
+			case 1:
+				acc.SetCreationTimestamp(metav1.Time{})
+			case 2: // finalizers: on a terminating object they can only go away
+				f := acc.GetFinalizers()
+				switch {
+				case len(f) > 0 && (o.noNewFinalizers || r.Intn(2) == 0):
+					k := r.Intn(len(f))
+					acc.SetFinalizers(append(append([]string{}, f[:k]...), f[k+1:]...))
+					h.c.Count("meta-edit:remove-finalizer")
+				case !o.noNewFinalizers:
+					acc.SetFinalizers(append(append([]string{}, f...), []string{"example.com/hold", "example.com/other", "example.com/third"}[len(f)%3]))
+					h.c.Count("meta-edit:add-finalizer")
+				}
+				continue
+			case 3:
+				acc.SetClusterName("somewhere")
+			case 4:
+				if len(acc.GetOwnerReferences()) > 0 && r.Intn(2) == 0 {
+					acc.SetOwnerReferences(nil)
+				} else {
+					acc.SetOwnerReferences(genOwners(r))
+				}
+			case 5:
+				if len(acc.GetManagedFields()) > 0 && r.Intn(2) == 0 {
+					acc.SetManagedFields(nil)
+				} else {
+					acc.SetManagedFields(genManaged(r))
+				}
+			case 6: // do not echo the deletion fields (the server puts them back)
+				acc.SetDeletionTimestamp(nil)
+				acc.SetDeletionGracePeriodSeconds(nil)
+			case 7: // all finalizers at once
+				if len(acc.GetFinalizers()) > 0 {
+					acc.SetFinalizers(nil)
+					h.c.Count("meta-edit:remove-all-finalizers")
+					continue
+				}
+			}
+			h.c.Count(fmt.Sprintf("meta-edit:%d", e))
 		}
+	}
+	if o.stripDeletion {
+		acc.SetDeletionTimestamp(nil)
+		acc.SetDeletionGracePeriodSeconds(nil)
+	}
+	if o.stripUID {
+		acc.SetUID("")
 	}
 	acc.SetResourceVersion("")
 	return h.normalise(s, obj)
@@ -853,17 +1075,44 @@ func (h *H) genCase(s *Served, stream string) Case {
 	}
 	cur := stored
 	exists := hasStored
+	var o subOpts
+	if hasStored {
+		if md, _ := toMap(stored)["metadata"].(map[string]interface{}); md["deletionTimestamp"] != nil {
+			o.noNewFinalizers = true // sticky: later bodies do not echo the deletion fields any more
+		}
+	}
 	for i := 0; i < nSteps; i++ {
 		st := Step{MetaValid: true}
 		switch {
 		case !exists && r.Intn(3) != 0:
 			st.Op = "create"
+		case exists && stream == "history" && r.Intn(6) == 0:
+			st.Op = "delete"
 		case r.Intn(5) < 3 || (s.Status == nil && r.Intn(4) != 0):
 			st.Op = "main"
 		default:
 			st.Op = "status"
 		}
-		st.Submitted = h.genSubmitted(s, cur, randMask(r))
+		if st.Op == "delete" {
+			m := toMap(cur)
+			md, _ := m["metadata"].(map[string]interface{})
+			nm := map[string]interface{}{"name": md["name"]}
+			if ns, ok := md["namespace"]; ok {
+				nm["namespace"] = ns
+			}
+			st.Submitted, _ = json.Marshal(map[string]interface{}{"metadata": nm})
+			cs.Steps = append(cs.Steps, st)
+			// afterwards the object is gone, or terminating with the server's own deletionTimestamp; if it goes
+			// and is re-created its uid is a new one
+			fin, _ := md["finalizers"].([]interface{})
+			exists = len(fin) > 0
+			o = subOpts{noNewFinalizers: true, stripDeletion: true, stripUID: true}
+			continue
+		}
+		if i > 0 {
+			o.stripDeletion = true
+		}
+		st.Submitted = h.genSubmitted(s, cur, randMask(r), o)
 		if !exists {
 			// a client creating an object sends neither uid nor creationTimestamp (both would be kept otherwise)
 			m := toMap(st.Submitted)
@@ -871,6 +1120,13 @@ func (h *H) genCase(s *Served, stream string) Case {
 			delete(md, "uid")
 			delete(md, "creationTimestamp")
 			st.Submitted, _ = json.Marshal(m)
+		} else if st.Op != "create" {
+			switch r.Intn(12) {
+			case 0, 1, 2:
+				st.RV = "current"
+			case 3:
+				st.RV = "stale"
+			}
 		}
 		if stream == "explicit-empty" {
 			st.Submitted, _ = h.withEmpties(s, st.Submitted)
@@ -880,7 +1136,7 @@ func (h *H) genCase(s *Served, stream string) Case {
 			st.MetaValid = false
 		}
 		cs.Steps = append(cs.Steps, st)
-		if st.MetaValid && !(st.Op == "status" && s.Status == nil) {
+		if st.MetaValid && st.RV != "stale" && !(st.Op == "status" && s.Status == nil) {
 			exists = true
 			cur = st.Submitted
 		}
@@ -1040,7 +1296,7 @@ func main() {
 	installWidget()
 	rig.Main("C20", func(c *rig.Ctx) {
 		h := &H{c: c, served: map[string]*Served{}, obs: map[string]int{}}
-		c.SetRule("a case = one way a kind is served (the 2 registrations of rest.go as the real NewRESTStorageProvider builds them + 4 probe registrations through the same NewResourceREST; protobuf storage, JSON too in thorough) x an initial stored object or none x 1-6 requests (create / main update / status update; bodies are JSON documents derived from the stored one with any subset of {labels, annotations, spec, status, generation, other metadata} changed; label/annotation maps over a 5-key universe with values from {\"\",a,b} and changed by structured edits (rename key, swap values, replace an empty-valued key by another, add+remove at equal size, key case, change/add/remove; counted as label-edit:/annotation-edit:); spec/status filled by reflection from small pools and changed by the same kinds of edits on every map/list member or by re-fill; the histogram's differs:<mask> says which groups of the first request differ from the stored object, L=labels A=annotations S=spec T=status G=generation; streams: roundtrip (no explicit empties), explicit-empty ({} [] \"\" null spelled out), invalid-meta, extreme (stored generation MaxInt64/negative/0), history); distinct = distinct canonical case; non-trivial = some field group differs or the object is new")
+		c.SetRule("a case = one way a kind is served (the 2 registrations of rest.go as the real NewRESTStorageProvider builds them + 4 probe registrations through the same NewResourceREST; protobuf storage, JSON too in thorough) x an initial stored object or none x 1-6 requests (create / main update / status update / DELETE in histories; bodies are JSON documents derived from the stored one with any subset of {labels, annotations, spec, status, generation, other metadata} changed; label/annotation maps over a 5-key universe with values from {\"\",a,b} and changed by structured edits (rename key, swap values, replace an empty-valued key by another, add+remove at equal size, key case, change/add/remove; counted as label-edit:/annotation-edit:); spec/status filled by reflection from small pools and changed by the same kinds of edits on every map/list member or by re-fill; the rest of the metadata varies too: finalizers (added/removed), stored objects that are terminating (deletionTimestamp + grace period 0 or 30, kept by finalizers), owner references, managed fields, uid/creationTimestamp present or not, resourceVersion absent/current/stale, a client-supplied generation on create and update (any value, MaxInt64 and negative included), deletion fields echoed or not; the histogram's differs:<mask> says which groups of the first request differ from the stored object, L=labels A=annotations S=spec T=status G=generation; streams: roundtrip (no explicit empties), explicit-empty ({} [] \"\" null spelled out), invalid-meta, extreme (stored generation MaxInt64/negative/0), history); distinct = distinct canonical case; non-trivial = some field group differs or the object is new")
 		if err := h.addPlane(protobufMedia, ""); err != nil {
 			c.Fail(rig.Failure{Kind: "diff", Class: "c20.plane", What: "the control plane's REST storage can no longer be built the way the harness does: " + err.Error()})
 			return
